@@ -40,48 +40,64 @@ def default_kind(node):
 
 
 def escapes(fn: ast.FunctionDef, param: str, dkind: str, sn="self"):
-    """Statements through which the default object bound to `param` can become instance state or be returned."""
-    aliases = {param}
+    """Statements through which the default object bound to `param` can become instance state or be returned - on path
+    summaries: a store / append / return whose value is the parameter itself on a path whose conditions the default object can
+    satisfy (a path taken only when isinstance(param, K) holds for a K the default is not, or only when param is None, is not
+    one)."""
+    from ..facts import path_returns, split_ifexp, type_facts
     out = []
-    for st in walk_no_nested(fn):
-        if isinstance(st, ast.Assign) and isinstance(st.value, ast.Name) and st.value.id in aliases:
-            for t in st.targets:
-                if isinstance(t, ast.Name):
-                    aliases.add(t.id)
-    for st in walk_no_nested(fn):
-        hit = False
-        if isinstance(st, (ast.Assign, ast.AnnAssign)):
-            tg = st.targets if isinstance(st, ast.Assign) else [st.target]
-            v = st.value
-            if v is None:
+    seen = set()
+
+    def compatible(k):
+        return (dkind in k) or k in ("object",) or (dkind == "list" and "list" in k.lower()) or (dkind == "np.ndarray" and "ndarray" in k)
+
+    def feasible(guards):
+        tf = type_facts(guards, param)
+        for k, b in tf.items():
+            if b and not compatible(k):
+                return False
+        for t, pol in guards:
+            tt, pp = t, pol
+            while isinstance(tt, ast.UnaryOp) and isinstance(tt.op, ast.Not):
+                tt, pp = tt.operand, not pp
+            if isinstance(tt, ast.Compare) and len(tt.ops) == 1 and isinstance(tt.left, ast.Name) and tt.left.id == param and norm(tt.comparators[0]) == "None":
+                is_none = pp if isinstance(tt.ops[0], (ast.Is, ast.Eq)) else not pp
+                if is_none:
+                    return False
+            # `if param:` / `if not param:` - an empty display is falsy
+            if isinstance(tt, ast.Name) and tt.id == param and pp and dkind in ("list", "dict", "set"):
+                return False
+        return True
+
+    def leaves(v):
+        """[(conds, leaf)] where the object itself (not a copy) may flow"""
+        res = []
+        for conds, leaf in split_ifexp(v):
+            if isinstance(leaf, ast.BoolOp) and isinstance(leaf.op, ast.Or) and isinstance(leaf.values[0], ast.Name) and leaf.values[0].id == param:
+                if dkind not in ("list", "dict", "set"):  # an empty display is falsy: replaced by the alternative
+                    res.append((conds, leaf.values[0]))
                 continue
-            # value is the object itself, or `p or <x>` / `p if c else x` (the object survives when truthy - a default [] is falsy)
-            direct = isinstance(v, ast.Name) and v.id in aliases
-            if isinstance(v, ast.BoolOp) and isinstance(v.op, ast.Or) and isinstance(v.values[0], ast.Name) and v.values[0].id in aliases:
-                direct = dkind not in ("list", "dict", "set")  # empty display is falsy: replaced by the fresh alternative
-            if isinstance(v, ast.IfExp):
-                direct = any(isinstance(b, ast.Name) and b.id in aliases for b in (v.body, v.orelse)) and not _none_test(v.test, aliases)
-            if direct and any(_rooted_at(t, sn) for t in tg):
-                hit = True
-        elif isinstance(st, ast.Return) and isinstance(st.value, ast.Name) and st.value.id in aliases:
-            hit = True
-        elif isinstance(st, ast.Expr) and isinstance(st.value, ast.Call) and isinstance(st.value.func, ast.Attribute) and st.value.func.attr in ("append", "extend", "insert") \
-                and _rooted_at(st.value.func.value, sn) and any(isinstance(a, ast.Name) and a.id in aliases for a in st.value.args):
-            hit = True
-        if not hit:
-            continue
-        # path condition: isinstance(param, K) with K incompatible with the default's kind -> the default never takes this path
-        dead = False
-        for t, br in enclosing_tests(fn, st):
-            for c in ast.walk(t):
-                if isinstance(c, ast.Call) and norm(c.func) == "isinstance" and len(c.args) == 2 and isinstance(c.args[0], ast.Name) and c.args[0].id in aliases:
-                    k = norm(c.args[1])
-                    compatible = (dkind in k) or k in ("object",) or (dkind == "list" and "list" in k.lower()) or (dkind == "np.ndarray" and "ndarray" in k)
-                    in_and = not isinstance(t, ast.BoolOp) or isinstance(t.op, ast.And) or t is c
-                    if br and not compatible and in_and:
-                        dead = True
-        if not dead:
-            out.append(st)
+            res.append((conds, leaf))
+        return res
+
+    for pe in path_returns(fn):
+        cands = []
+        for e in pe.effects:
+            if isinstance(e, ast.Assign) and any(_rooted_at(t, sn) for t in e.targets):
+                cands.append((e.value, e))
+            for x in ast.walk(e):
+                if isinstance(x, ast.Call) and isinstance(x.func, ast.Attribute) and x.func.attr in ("append", "extend", "insert") and _rooted_at(x.func.value, sn):
+                    for a in x.args:
+                        cands.append((a, e))
+        if pe.kind == "return" and pe.value is not None:
+            cands.append((pe.value, pe.node))
+        for v, node in cands:
+            for conds, leaf in leaves(v):
+                if isinstance(leaf, ast.Name) and leaf.id == param and feasible(pe.guards + conds):
+                    k = (getattr(node, "lineno", 0), norm(node)[:80])
+                    if k not in seen:
+                        seen.add(k)
+                        out.append(node)
     return out
 
 
